@@ -515,6 +515,9 @@ fn rendered_bases() -> Vec<String>
         "b\na\nb\n:\nz\n\ty\n\tx\nz\n\tx\n\ty\n:\ncmd\n:\n".to_string(),
         " lead\ntrail \n\u{a0}nbsp\n:\n\rcr\nd\n\t e\n:\n  spaced command \n:\n".to_string(),
         "t\n:\ns\n:\n:\n".to_string(),
+        // lines that look like comments or like decorated separators are ordinary lines
+        "#t\n:\n//s\n-- s\n#\n:\n# not a comment\n:\n".to_string(),
+        "t\n :\n:\ns\n: \n:\nc :\n::\n:\n".to_string(),
         "out\n\tlib\n\t\ta.o\n\t\tb.o\nout\n\tlib\n\t\tb.o\n\t\ta.o\n\tbin\n\t\tx\n:\nsrc\n\ta.c\n:\ncc\n:\n".to_string(),
     ]
 }
